@@ -1156,7 +1156,7 @@ def run_property(ctx, out, pid, prefix, mc_cfg, selftest, seed_off, n_sim, n_ran
     """mc_cfg: cfg file for leg M; selftest: (cfg file, property expected to be violated, description)."""
     # ---- Leg M
     wd = tlc.prepare_workdir("ClientLoop", pid.lower() + "mc")
-    res = tlc.run_tlc(wd, "MC_ClientLoop", mc_cfg, workers=8, timeout=80 if ctx.quick else 800, allow_violation=True)
+    res = tlc.run_tlc(wd, "MC_ClientLoop", mc_cfg, workers=8, timeout=600 if ctx.quick else 2400, allow_violation=True)
     out.add_tlc(res)
     if not res.ok:
         raise tlc.MachineryError(
@@ -1167,7 +1167,7 @@ def run_property(ctx, out, pid, prefix, mc_cfg, selftest, seed_off, n_sim, n_ran
     out.exhaustive = False
     # self-test of the model: a variant with the breakage the property is about must violate the property in the model
     wd = tlc.prepare_workdir("ClientLoop", pid.lower() + "self")
-    res = tlc.run_tlc(wd, "MC_ClientLoop", selftest[0], workers=4, timeout=120, allow_violation=True)
+    res = tlc.run_tlc(wd, "MC_ClientLoop", selftest[0], workers=4, timeout=600, allow_violation=True)
     if res.property_violated != selftest[1]:
         raise tlc.MachineryError("self-test failed: %s does not violate %s (got %r)" % (selftest[0], selftest[1], res.property_violated or res.invariant_violated))
     out.extra["model_selftest"] = selftest[2]
